@@ -1,6 +1,7 @@
 package main
 
 import (
+	"github.com/NibiruChain/nibiru/v2/x/oracle"
 	"encoding/hex"
 	"fmt"
 	"math/big"
@@ -397,6 +398,44 @@ func runOracleTally(r *hx.R, n int, w *hx.W, _ []string) error {
 				w.Count("slash:some")
 			}
 			w.Step(op, res)
+		}
+
+		// --- the end blocker's two gates, through the real EndBlocker: which of the tally and the slash-and-reset run at a height,
+		// for vote periods and slash windows that need not divide each other (Params.Validate only asks SlashWindow >= VotePeriod)
+		for g := 0; g < 3; g++ {
+			gp := params
+			gp.VotePeriod = uint64(r.Range(1, 8))
+			gp.SlashWindow = gp.VotePeriod + uint64(r.Range(0, 3*int64(gp.VotePeriod)))
+			gp.MinValidPerWindow = sdkmath.LegacyZeroDec() // nobody is slashed here: only the gates are observed
+			k.Params.Set(ctx, gp)
+			// aim at heights where at least one of the two periods ends
+			base := uint64(r.Range(1, 40))
+			var h int64
+			switch r.Pick(3) {
+			case 0:
+				h = int64(base*gp.VotePeriod) - 1
+			case 1:
+				h = int64(base*gp.SlashWindow) - 1
+			default:
+				h = r.Range(1, 200)
+			}
+			if h < 1 {
+				h = 1
+			}
+			gctx := ctx.WithBlockHeight(h)
+			marker := vals[0].addr
+			k.MissCounters.Insert(gctx, marker, 1)
+			k.Votes.Insert(gctx, marker, oracletypes.NewAggregateExchangeRateVote(oracletypes.ExchangeRateTuples{}, marker))
+			res := hx.Recover(func() string {
+				oracle.EndBlocker(gctx, k)
+				_, gerr := k.Votes.Get(gctx, marker)
+				tally := gerr != nil // clearVotesAndPrevotes removes every vote
+				slash := len(k.MissCounters.Iterate(gctx, collections.Range[sdk.ValAddress]{}).Keys()) == 0 // the reset removes every counter
+				return fmt.Sprintf("tally=%s slash=%s", b01(tally), b01(slash))
+			})
+			w.Count("gates:" + res)
+			w.Step(fmt.Sprintf("oracle gates %d %d %d", h, gp.VotePeriod, gp.SlashWindow), res)
+			_ = k.Votes.Delete(gctx, marker)
 		}
 	}
 	return nil
